@@ -5,6 +5,7 @@ package main
 
 import (
 	"fmt"
+	"go/ast"
 	"go/token"
 	"go/types"
 	"sort"
@@ -1142,29 +1143,82 @@ func c13Temporaries(p *Program, r *Report) {
 	// every element/field decode inside readReflect targets a temporary: the pointer handed to a read derives on every
 	// chain from reflect.New / reflect.MakeSlice, never from the caller's object (reflect.ValueOf(param)...)
 	m := 0
+	// the reflective reader and the unexported reader helpers it calls (an element reader shared by slice and array case)
+	scan := []*ssa.Function{rr}
 	for _, in := range g.Nodes {
-		cc, ok := in.(*ssa.Call)
-		if !ok || !isReaderCall(in) {
-			continue
-		}
-		for _, a := range cc.Call.Args[1:] {
-			if !types.IsInterface(a.Type()) {
-				continue
-			}
-			m++
-			o := p.origins(a)
-			okT := len(o) > 0
-			for _, ch := range o {
-				if !(strings.Contains(ch, "reflect.New") || strings.Contains(ch, "reflect.MakeSlice")) {
-					okT = false
+		if cc, ok := in.(*ssa.Call); ok && isReaderCall(in) {
+			if y := cc.Call.StaticCallee(); y != rr && y != read && !ast.IsExported(y.Name()) && len(y.Blocks) > 0 {
+				dup := false
+				for _, f := range scan {
+					if f == y {
+						dup = true
+					}
+				}
+				if !dup {
+					scan = append(scan, y)
 				}
 			}
-			r.Check(okT, fmt.Sprintf("readReflect decodes into a temporary (nested read #%d)", m), cc.Pos(), "the destination of the nested read derives only from reflect.New / reflect.MakeSlice: a failure part-way cannot have overwritten the caller's elements")
+		}
+	}
+	for _, sf := range scan {
+		for _, in := range p.ig(sf).Nodes {
+			cc, ok := in.(*ssa.Call)
+			if !ok || !isReaderCall(in) {
+				continue
+			}
+			for _, a := range cc.Call.Args[1:] {
+				if !(types.IsInterface(a.Type()) && a.Type().Underlying().(*types.Interface).NumMethods() == 0) && !typeIs(a.Type(), "reflect", "Value") {
+					continue // decode destinations are `any` pointers or reflect.Values; reflect.Type descriptors etc. are not
+				}
+				m++
+				okT := p.tempDerived(a, sf, rr, 0)
+				r.Check(okT, fmt.Sprintf("readReflect decodes into a temporary (nested read #%d)", m), cc.Pos(), "the destination of the nested read derives only from reflect.New / reflect.MakeSlice (through the parameters of an element-reading helper, at every call site): a failure part-way cannot have overwritten the caller's elements")
+			}
 		}
 	}
 	if m == 0 {
 		r.Unresolved("no nested reads in readReflect")
 	}
+}
+
+// tempDerived: every provenance chain of v (a decode destination inside fn) starts at reflect.New / reflect.MakeSlice; a chain
+// that starts at a parameter of fn is followed to the corresponding argument at every call site of fn (an element reader
+// shared by the slice and the array case).
+func (p *Program) tempDerived(v ssa.Value, fn, entry *ssa.Function, depth int) bool {
+	o := p.origins(v)
+	if len(o) == 0 || depth > 2 {
+		return false
+	}
+	for _, ch := range o {
+		if strings.Contains(ch, "reflect.New") || strings.Contains(ch, "reflect.MakeSlice") {
+			continue
+		}
+		i := strings.LastIndex(ch, "param:")
+		if i < 0 {
+			return false
+		}
+		name := ch[i+len("param:"):]
+		pi := -1
+		for k, prm := range fn.Params {
+			if prm.Name() == name {
+				pi = k
+			}
+		}
+		node := p.CG.Nodes[fn]
+		if pi <= 0 || node == nil || len(node.In) == 0 || fn == entry {
+			return false // the entry point's own parameter is the caller's object
+		}
+		for _, e := range node.In {
+			if e.Site == nil || e.Site.Common().StaticCallee() != fn {
+				return false
+			}
+			args := e.Site.Common().Args
+			if pi >= len(args) || !p.tempDerived(args[pi], e.Caller.Func, entry, depth+1) {
+				return false
+			}
+		}
+	}
+	return true
 }
 
 func c13Recursion(p *Program, r *Report) {
@@ -1305,8 +1359,12 @@ func (p *Program) edgeMakesProgress(from *ssa.Function, site ssa.CallInstruction
 	g := p.ig(from)
 	c := site.Common()
 	for _, a := range c.Args {
-		if _, isIface := a.Type().Underlying().(*types.Interface); !isIface {
+		_, isIface := a.Type().Underlying().(*types.Interface)
+		if !isIface && !typeIs(a.Type(), "reflect", "Value") {
 			continue
+		}
+		if typeIs(a.Type(), "reflect", "Type") {
+			continue // a type descriptor is not the value being encoded / decoded
 		}
 		o := p.origins(a)
 		if anyContains(o, ".Index") || anyContains(o, ".Field<-") || anyContains(o, "(reflect.Value).Field") || anyContains(o, "call:reflect.New") {
